@@ -8,8 +8,9 @@ import (
 
 // Verification hooks for property C05 (see /verif). Not compiled without the "verif" build tag.
 
-// VerifDERParsers lists, in the order parseDERData tries them, the seven parsers of
-// a DER object together with a stable name.
+// verifDERParsers lists the seven individual parsers that parseDERData tries (the order
+// here is a fixed numbering for the hooks, not the trial order) and two more that only
+// parsePEMBlock reaches.
 var verifDERParsers = []struct {
 	name  string
 	parse func([]byte) (Info, error)
@@ -27,7 +28,7 @@ var verifDERParsers = []struct {
 }
 
 // VerifDERParserNames returns the names of the individual DER parsers (the first
-// seven are parseDERData's trial list).
+// seven are the ones parseDERData tries).
 func VerifDERParserNames() []string {
 	var out []string
 	for _, p := range verifDERParsers {
